@@ -256,9 +256,12 @@ Definition item_action (c : cmd) (it : item) : action :=
   | CRewrite o => rewrite_action (i_old it) (i_sn it) (i_fres it) o
   end.
 
-(* tag reports an error for one snapshot and takes the next one; rewrite / repair stop at the first
-   error (ForAllSnapshots does not call the callback any more once it has failed, /repo ac05aded2) *)
-Definition cmd_mode (c : cmd) : mode := match c with CTag _ _ _ => MContinue | CRewrite _ => MAbort end.
+(* tag reports an error for one snapshot and takes the next one.  rewrite / repair cancel the listing at
+   the first error; whether a snapshot already loaded by another worker is still processed depends on
+   ForAllSnapshots (intended: no; /repo ac05aded2 still lets one through in a race, see F-C26b).  The
+   harness lists the snapshots that were actually taken up, so "continue" describes both behaviours;
+   MAbort (strictly sequential abort) is covered by the theorems as well. *)
+Definition cmd_mode (c : cmd) : mode := match c with CTag _ _ _ => MContinue | CRewrite _ => MContinue end.
 
 (* plan entries of the items that reach the backend; the id of the new file is taken from the
    observation (it is a hash over a random nonce); 0 stands for "no such file was saved" *)
